@@ -68,7 +68,8 @@ theorem stackInside_unmapped (m : SourceMap) (conv : String) (B : List Frame)
   simpa [scan] using this
 
 theorem elide_map_loc (conv : String) (B : List Frame) (acc : List FrameInfo) :
-    (elide conv B acc).map FrameInfo.loc = acc.map FrameInfo.loc ++ (B.filter (fun f => decide (f.file ≠ conv))).map Frame.loc := by
+    (elide conv B acc).map FrameInfo.loc
+      = acc.map FrameInfo.loc ++ (B.filter (fun f => !Gen.Errors.converterFrameTest f.file conv)).map Frame.loc := by
   induction B generalizing acc with
   | nil => simp [elide]
   | cons f B ih =>
@@ -230,7 +231,7 @@ and it is marked allow-listed (`**`) exactly when its caller is an `api.py` fram
 def markSpec (conv : String) : Bool → List Frame → List FrameInfo
   | _, [] => []
   | callerIsApi, f :: rest =>
-    if f.file = conv then markSpec conv true rest
+    if Gen.Errors.converterFrameTest f.file conv then markSpec conv true rest
     else { FrameInfo.plain f with allowlisted := callerIsApi } :: markSpec conv false rest
 
 def markHead : List FrameInfo → List FrameInfo
